@@ -101,12 +101,34 @@ Lemma total_prun {A} (m : P A) d Q : pspec m d 0 Q -> total (prun m d).
 Proof. unfold pspecE, prun, total. destruct (m d 0) as [[a|e] p']; cbn; auto. Qed.
 
 (* ---- what a read returns ---- *)
+Lemma ltake_ztake : forall l n, ltake n l = ztake n l.
+Proof.
+  induction l as [|x t IH]; intro n; cbn [ltake].
+  - unfold ztake. rewrite firstn_nil. reflexivity.
+  - destruct (n <=? 0) eqn:E.
+    + apply Z.leb_le in E. rewrite ztake_neg by lia. reflexivity.
+    + apply Z.leb_gt in E. rewrite IH. unfold ztake.
+      replace (Z.to_nat n) with (S (Z.to_nat (n - 1))) by lia. reflexivity.
+Qed.
+Lemma ldrop_zdrop : forall l n, ldrop n l = zdrop n l.
+Proof.
+  induction l as [|x t IH]; intro n; cbn [ldrop].
+  - unfold zdrop. rewrite skipn_nil. reflexivity.
+  - destruct (n <=? 0) eqn:E.
+    + apply Z.leb_le in E. rewrite zdrop_neg by lia. reflexivity.
+    + apply Z.leb_gt in E. rewrite IH. unfold zdrop.
+      replace (Z.to_nat n) with (S (Z.to_nat (n - 1))) by lia. reflexivity.
+Qed.
+Lemma lslice_zslice a b l : lslice a b l = zslice a b l.
+Proof. unfold lslice, zslice. rewrite ldrop_zdrop, ltake_ztake. reflexivity. Qed.
+Lemma rd_eq n p d : rd n p d = if n <? 0 then zdrop p d else ztake n (zdrop p d).
+Proof. unfold rd. rewrite ldrop_zdrop, ltake_ztake. reflexivity. Qed.
 Lemma rd_len n p d : 0 <= p -> 0 <= n -> zlen (rd n p d) = Z.min n (Z.max 0 (zlen d - p)).
 Proof.
-  intros. unfold rd. destruct (n <? 0) eqn:E; [lia|]. rewrite zlen_ztake, zlen_zdrop by lia. reflexivity.
+  intros. rewrite rd_eq. destruct (n <? 0) eqn:E; [lia|]. rewrite zlen_ztake, zlen_zdrop by lia. reflexivity.
 Qed.
 Lemma rd_len_neg n p d : 0 <= p -> n < 0 -> zlen (rd n p d) = Z.max 0 (zlen d - p).
-Proof. intros. unfold rd. destruct (n <? 0) eqn:E; [|lia]. apply zlen_zdrop; lia. Qed.
+Proof. intros. rewrite rd_eq. destruct (n <? 0) eqn:E; [|lia]. apply zlen_zdrop; lia. Qed.
 
 Definition bytes_ok (l : list Z) : Prop := Forall (fun x => 0 <= x < 256) l.
 Lemma bytes_ok_firstn n l : bytes_ok l -> bytes_ok (firstn n l).
@@ -118,7 +140,7 @@ Lemma bytes_ok_zdrop n l : bytes_ok l -> bytes_ok (zdrop n l). Proof. apply byte
 Lemma bytes_ok_zslice a b l : bytes_ok l -> bytes_ok (zslice a b l).
 Proof. intro. unfold zslice. apply bytes_ok_ztake, bytes_ok_zdrop. assumption. Qed.
 Lemma bytes_ok_rd n p d : bytes_ok d -> bytes_ok (rd n p d).
-Proof. intro H. unfold rd. destruct (n <? 0); [|apply bytes_ok_ztake]; apply bytes_ok_zdrop; assumption. Qed.
+Proof. intro H. rewrite rd_eq. destruct (n <? 0); [|apply bytes_ok_ztake]; apply bytes_ok_zdrop; assumption. Qed.
 Lemma bytes_ok_nth l i : bytes_ok l -> 0 <= nth i l 0 < 256.
 Proof.
   unfold bytes_ok. revert l; induction i; intros l H; destruct H; cbn; try lia.
